@@ -430,7 +430,9 @@ def make_db(r: Any, i: int) -> Optional[Dict[str, Any]]:
     mode = i % 3
     if mode == 0:
         unclear = (i % 15 == 0)
-        model, _ = G.generate(r, unclear=unclear)
+        model, tp = G.generate(r, unclear=unclear)
+        if not unclear:
+            G.add_second_import(r, model, tp)
         return model
     fclass = G.FAULTS[(i // 3) % len(G.FAULTS)] if mode == 1 else r.choice(G.FAULTS)
     for _ in range(20):
@@ -451,6 +453,9 @@ def part(task: Tuple[int, int, str], col: common.Collector) -> None:
             col.count("generator_gave_up")
             continue
         judge_db(model, col, tier)
+        if model.get("second_import"):
+            col.count("databases-with-two-imports")
+            col.count("references-through-second-import", model["second_import"]["repointed"])
         if worker == 0 and i < 4:
             col.sample({"containers": {d["name"]: [f'{L["kind"]}:{L["name"]}' for L in d["layers"]]
                                        for d in model["docs"]},
@@ -460,9 +465,12 @@ def part(task: Tuple[int, int, str], col: common.Collector) -> None:
 
 
 def run(tier: str, col: common.Collector) -> None:
-    per = 18 if tier == "quick" else 120
+    per = 45 if tier == "quick" else 150
     nw = common.NCPU if tier == "quick" else common.NCPU * 4
     common.pmap(part, [(w, per, tier) for w in range(nw)], col)
+    for need in ("databases-with-two-imports", "references-through-second-import"):
+        if not col.counters.get(need):
+            col.fail_inconclusive(f"monitor counter {need} stayed at zero")
     missing = []
     for k in G.ID_KINDS:
         forms = ["id-docref-comparam-spec"] if k == "COMPARAM-SPEC" else \
